@@ -315,7 +315,7 @@ META = {
     "explanation": "The property is an equivalence over operation histories, which static analysis does not decide. Three necessary conditions that "
                    "are structural are decided: the multipart ownership gate dominates every multipart effect; listings pass through a key sort "
                    "after the last insertion; ranged reads position, size and bound the body from the interval Range::check returned. Everything "
-                   "else (last-writer-wins, ETag = MD5, prefix filtering, part concatenation, deletion) is not decided.",
+                   "else (last-writer-wins, ETag = MD5, prefix filtering, part concatenation, deletion) is not decided. Also: the listing's prefix filter compares text, not path components; the ETag of a read is computed from the object's content, not from a stored side record.",
     "not_decided": ["the history equivalence itself", "last-writer-wins", "ETag = MD5", "prefix/delimiter filtering", "part concatenation", "deletion semantics"],
     "assumptions": ["rustc nightly MIR construction"],
 }
